@@ -27,16 +27,19 @@ ID = "C16"
 LEVEL = "exploration"
 MONITORS = []
 ANCHORS = ["modules/aggregation.py"]
-RULE = ("families: 'agg' (every length n up to the tier bound x 8-9 positive value patterns x 3 aggregations x "
-        "parameter grid of both signs x {plain, undamped scaling, extreme-preserving active set, both}), 'hist' "
-        "(damped scaling over 2-8 response() calls with changing data and lengths, module + twin and AggScaling "
-        "called directly), 'aset-exh' (EVERY weak ordering = tie structure of n<=bound entries x two value maps x "
-        "crossed grid of band and amount fractions), 'aset-len' (every length up to the bound x value patterns x "
-        "fractions k/n and neighbours, fractions rounding to zero, boundary hits), 'aset-rand' (random n<=200/2000). "
-        "distinct = family x length (bucket) x option class; non-trivial = at least one oracle comparison with n>=2")
+RULE = ("families: 'agg' (every length n up to the tier bound x 10 positive value patterns (distinct, all equal, ties at "
+        "max/min, one dominant, one tiny, nearly equal, decimal ties, log-wide, large) x 3 aggregations x parameter grid "
+        "of both signs x {plain, undamped scaling, extreme-preserving active set, both, scaling to the other extreme}), "
+        "'hist' (damped scaling over 2-8 response() calls with changing data and lengths, module + unscaled twin, and "
+        "AggScaling called directly), 'aset-exh' (EVERY weak ordering = tie structure and arrangement of n<=bound entries "
+        "x dyadic and random value maps x crossed grid of 17 bands x 69 amount pairs), 'aset-len' (every length up to the "
+        "bound x 11 value patterns x fractions k/n with float neighbours, fractions rounding to zero, limits equal to an "
+        "entry's normalised value), 'aset-rand' (random n<=200/2000). distinct = family x length x chunk/repetition; "
+        "non-trivial = at least one oracle comparison on a vector with n>=2")
 EXHAUSTIVE = {"quick": False, "thorough": False}
-EXPLANATION = ("exhaustive only in the tie structure of vectors up to length 5 (quick, n=5 with an uncrossed grid) / 6 "
-               "(thorough) and in the length up to 12 / 40; values, parameters and fractions are sampled")
+EXPLANATION = ("exhaustive in the tie structure of vectors up to length 5 (quick; n=5 with one of the two value maps per "
+               "ordering) / 6 (thorough; plus n=7 with band and amount grids uncrossed + 40 random crossings) and in the "
+               "length up to 12 / 40; values, parameters and fractions are sampled, hence not exhaustive overall")
 ASSUMPTIONS = [
     "positive data in [1e-3, 1e3]; parameters |p|,|rho|,|alpha| in [0.5, 30]; KSFunction only where |rho|*max(x) <= 400 "
     "(it evaluates exp(rho*x) unshifted and overflows beyond ~709: floating range is taken as the domain limit of the "
@@ -59,12 +62,18 @@ ASSUMPTIONS = [
     "lengths: quick n<=12 exhaustive, <=200 random; thorough n<=40 exhaustive, <=2000 random; 1-D float64 vectors",
 ]
 FLOORS = {
-    "quick": {"cases_held": 150, "distinct_nontrivial": 100, "bounds_checked": 20000, "exact_scaling_checked": 15000,
-              "recurrence_steps_checked": 4000, "masks_checked": 250000, "masks_with_ties": 100000,
-              "fractions_rounding_to_zero": 20000, "boundary_entries_decided": 20000, "weak_orderings": 600},
-    "thorough": {"cases_held": 700, "distinct_nontrivial": 400, "bounds_checked": 200000, "exact_scaling_checked": 150000,
-                 "recurrence_steps_checked": 30000, "masks_checked": 5000000, "masks_with_ties": 3000000,
-                 "fractions_rounding_to_zero": 300000, "boundary_entries_decided": 500000, "weak_orderings": 5000},
+    # about half of what the unchanged tree reaches (quick seeds 0,1,2,3,17,12345; thorough seeds 0,1); the number of weak
+    # orderings is exact: 1+3+13+75+541 (n<=5) resp. +4683+47293 (n<=7) -- every tie structure must have been executed
+    "quick": {"cases_held": 95, "distinct_nontrivial": 80, "bounds_checked": 25000, "bounds_checked_sharp": 4500,
+              "exact_scaling_checked": 28000, "recurrence_steps_checked": 9500, "direct_scaling_calls": 4500,
+              "masks_checked": 480000, "masks_with_ties": 340000, "masks_all_equal_data": 18000,
+              "fractions_rounding_to_zero": 190000, "masks_with_ambiguous_count": 70000,
+              "boundary_entries_decided": 90000, "weak_orderings": 633},
+    "thorough": {"cases_held": 775, "distinct_nontrivial": 620, "bounds_checked": 230000, "bounds_checked_sharp": 32000,
+                 "exact_scaling_checked": 260000, "recurrence_steps_checked": 47000, "direct_scaling_calls": 23000,
+                 "masks_checked": 9600000, "masks_with_ties": 8000000, "masks_all_equal_data": 78000,
+                 "fractions_rounding_to_zero": 3200000, "masks_with_ambiguous_count": 800000,
+                 "boundary_entries_decided": 2800000, "weak_orderings": 52609},
 }
 TIMEOUT_CASE = 300
 
